@@ -204,5 +204,17 @@ c06.append(job("watch","rule","VH_EncodeWatch",["C06/"],{},Q,bounds="file watche
 C["C06"]={"jobs":c06,"assumptions":RULE_ASSUME+["UAPI constants and struct offsets come from /usr/include/linux/audit.h of this image via a compiled C program (uapi/extract.py); the field-name -> macro map is transcribed from audit-userspace's fieldtab.h",
    "the Rule struct is built directly (flag text parsing is C07/C14's subject)","the top 16 bits of the last mask word are not constrained for the all-syscalls pattern (kernel syscall-class bits)"],
    "outside":["strings longer than 3 symbolic bytes (length limits are checked by C13's concrete long strings)","user/group names other than root","-C comparisons (planned)"]}
+
+SHAPES=["aF","aFF","Fa","aS","aSk","aFk","Ak","aC","aCF","akk","aSS","w","wp","wk","wpk","pw","kw","D","Dk","F","S","C","aAF","aw","Dw","DaF","wF","","#aF","a#F","aF#","w#pk","wp#","D#","#D","aS#k"]
+c14=[]
+for i,sh in enumerate(SHAPES):
+    hole = 4 if sh.count("F")+sh.count("C")<=1 else 3
+    c14.append(job("shape-"+(sh or "empty").replace("#","stray"),"rule/flags","VH_Tokens",["C14/"],{"shape":i,"hole":hole,"arghole":3},Q,
+       bounds=f"line shape '{sh}' (a/A: 5 list,action spellings; F/C: filter text of 0..{hole} symbolic ASCII bytes in single quotes; S/k/w/p: 0..3 symbolic bytes; #: a stray word)"))
+    if "F" in sh or "C" in sh:
+        c14.append(job("shape6-"+sh.replace("#","stray"),"rule/flags","VH_Tokens",["C14/"],{"shape":i,"hole":6,"arghole":4},T,bounds=f"line shape '{sh}' with filter text of 0..6 symbolic bytes"))
+C["C14"]={"jobs":c14,"assumptions":PARSE_ASSUME[:2]+["hole bytes are ASCII and free of single quotes, so shell quoting of the assembled line is exact","repeated single-valued flags (-w x -w y, -a .. -a ..) are outside the domain explored: the property does not say whether last-wins is acceptable",
+   "filter text is compared after trimming surrounding white space and ignoring white space between field and operator (a parser that trims is not faulted, one that drops non-blank text is)"],
+   "outside":["lines with more than 4 flags","filter text longer than 6 symbolic bytes","other quoting styles (double quotes, backslashes) in the assembled line"]}
 json.dump(C,open('/verif/checks.json','w'),indent=1)
 print({k:len(v["jobs"]) for k,v in C.items()})
